@@ -61,6 +61,10 @@ pub fn run(t: &[&str]) -> String {
         let f = SolidSource::from_unpremultiplied_argb(a, cr, cg, cb);
         let f2 = SolidSource::from(Color::new(a, cr, cg, cb));
         assert_eq!(f, f2, "From<Color> differs from from_unpremultiplied_argb");
+        match Source::from(Color::new(a, cr, cg, cb)) {
+            Source::Solid(f3) => assert_eq!(f, f3, "Source::from(Color) differs from from_unpremultiplied_argb"),
+            _ => panic!("Source::from(Color) is not a solid source"),
+        }
         format!("W {} B {} M {} P {} {} {} U {:08x} F {} {} {} {}", hexline(&words),
             bytes.iter().map(|b| b.to_string()).collect::<Vec<_>>().join(" "), hexline(&modified),
             pw, ph, pngbytes.iter().map(|b| b.to_string()).collect::<Vec<_>>().join(" "),
